@@ -282,7 +282,7 @@ def _on_layout(orc):
 
 
 register_b09(
-    "C14", ["CocoVerif.Props.C14"], OB.c14, OB.c14_classify,
+    "C14", ["CocoVerif.Props.C14", "CocoVerif.Props.C14Front"], OB.c14, OB.c14_classify,
     "every RUN call in the user's procedure of every converted program of the transpiler suite (generated programs cover all "
     "device statements, convertible functions, PRINT/HPRINT items, INPUT wrappers, empty-DATA filters with literal, variable, "
     "array, expression and nested-function operands); the call's arity and syntactic argument kinds are compared with the "
@@ -322,7 +322,7 @@ register_b09(
     "dependencies, string storage 32 and 77) and the pair is compared as the option documents; the CLI suite runs the real "
     "start(argv) on scratch files over all 16 flag sets x file names (hyphen, blank, dots, no extension, upper case) x LF/CR/CRLF; "
     "distinct = distinct request",
-    extra_suites=[{"name": "cli", "relevant": lambda c: True, "oracle": OB.c11_cli}],
+    extra_suites=[{"name": "cli", "relevant": lambda c: not c["kind"].startswith("cli-config"), "oracle": OB.c11_cli}],
     lean_extra=["CocoVerif.Model.Cli"],
 )
 
@@ -334,6 +334,13 @@ register_b09(
     "arguments, only as READ/INPUT targets, only inside VARPTR, only as implicit arrays); distinct = distinct request",
     assumptions=["a comment containing `*)` makes the rest of the line unreadable for the oracle (C07 finding): such cases are skipped"],
 )
+
+import suite_cli as _SC  # noqa: E402
+
+_CONFIG_SUITE = {"name": "cli", "relevant": lambda c: c["kind"].startswith("cli-config"), "oracle": _SC.config_oracle}
+# the configuration file through the real command line: used when valid (C10), refused with the documented error when not (C15)
+PROPS["C10"]["suites"].append(_CONFIG_SUITE)
+PROPS["C15"]["suites"].append(_CONFIG_SUITE)
 
 register_b09(
     "C07", ["CocoVerif.Props.C07", "CocoVerif.Props.C07Expr", "CocoVerif.Props.C07Stmt"], OB.c07, OB.c07_classify, 
@@ -347,7 +354,7 @@ register_b09(
 )
 
 register_b09(
-    "C05", ["CocoVerif.Props.C05"], OB.c05, OB.c05_classify,
+    "C05", ["CocoVerif.Props.C05", "CocoVerif.Props.C05Place"], OB.c05, OB.c05_classify,
     "every converted program of the transpiler suite (generated expressions nest INT/VAL/STR$/HEX$/INSTR/STRING$/INKEY$/BUTTON/"
     "JOYSTK/POINT inside each other and inside built-in functions, in assignment, IF with and without ELSE / ELSE IF, FOR bounds, "
     "PRINT and PRINT@ items, subscripts on either side, ON selector, device operands): in the real output every temporary must be "
@@ -533,11 +540,16 @@ import suite_lib  # noqa: E402
 PROPS["C03"]["lean"] += ["CocoVerif.Tie.EcbHelpers", "CocoVerif.Props.C20"]
 PROPS["C03"]["lean_extra"] += ["CocoVerif.Model.B09Lib", "CocoVerif.Spec.Strings", "CocoVerif.Pinned.EcbHelpers"]
 PROPS["C03"]["suites"].append({"name": "lib", "relevant": lambda c: True, "oracle": suite_lib.oracle})
+# C20, third clause: "the item's numeric value otherwise" - the value that reaches the read filter is the text the tool
+# writes for the DATA item; the DATA value probes of the sem suite (items over twenty orders of magnitude, with an empty
+# item so that every number goes through its text) are judged for C20 too
+_C20_DATA = {"name": "sem", "relevant": lambda c: c.get("kind") == "data-value-probe", "oracle": suite_sem.oracle,
+             "classify": suite_sem.classify}
 
 PROPS["C20"] = {
     "lean": ["CocoVerif.Tie.EcbHelpers", "CocoVerif.Props.C20"],
     "lean_extra": ["CocoVerif.Model.B09Lib", "CocoVerif.Spec.Strings", "CocoVerif.Pinned.EcbHelpers"],
-    "suites": [{"name": "lib", "relevant": lambda c: True, "oracle": suite_lib.oracle}],
+    "suites": [{"name": "lib", "relevant": lambda c: True, "oracle": suite_lib.oracle}, _C20_DATA],
     "search": _lib_value_search,
     "rule": "exhaustive: every subject over {A,B} up to length 4 (6 thorough) x every pattern up to length 3 (4) x every start "
             "index 1..len+2, plus long probes; STRING$ counts (all 0..255 in thorough) x 5 arguments incl. empty and negative counts; "
